@@ -218,7 +218,7 @@ def enfOp (st : EnfSt) (ts : List String) : Option (EnfSt × String × String ×
         match ep.applyM op with
         | some (ep', res) => some ({ st with enf := some ep', histOk := st.histOk && e.opWF op }, showMRes res, "-", true)
         | none => some ({ st with histOk := false }, "panic", "-", false)
-      let hOk := st.histOk && ep.prm.isEmpty
+      let hOk := st.histOk && ep.prm.isEmpty && ep.unbound.isEmpty
       match op, rest with
       | "enf", args => do
           let (ctx, vals) ← parseCtxVals args
@@ -227,14 +227,14 @@ def enfOp (st : EnfSt) (ts : List String) : Option (EnfSt × String × String ×
           let inHyp := wf && hOk
           -- outside the theorem's hypothesis the reference is still a meaningful oracle when the state
           -- itself is well-formed: marked `?` = only used to search for a failing input
-          retP ep' (showEnf r) (if inHyp || sp == "-" then sp else if wf && stateOk e && ep.prm.isEmpty then "?" ++ sp else "-") inHyp
+          retP ep' (showEnf r) (if inHyp || sp == "-" then sp else if wf && stateOk e && ep.prm.isEmpty && ep.unbound.isEmpty then "?" ++ sp else "-") inHyp
       | "enfx", args => do
           let (ctx, vals) ← parseCtxVals args
           let (ep', r) := ep.enforceStep ctx none vals
           let (sp, wf) := specOf e ctx vals
           let inHyp := wf && hOk
           let sp' := if sp == "-" then "-" else sp ++ " ..."
-          retP ep' (showEnfEx r) (if inHyp || sp == "-" then sp' else if wf && stateOk e && ep.prm.isEmpty then "?" ++ sp' else "-") inHyp
+          retP ep' (showEnfEx r) (if inHyp || sp == "-" then sp' else if wf && stateOk e && ep.prm.isEmpty && ep.unbound.isEmpty then "?" ++ sp' else "-") inHyp
       | "enfm", id :: args => do
           let (ctx, vals) ← parseCtxVals args
           let (ep', r) := ep.enforceStep ctx (some id) vals
@@ -280,13 +280,17 @@ def enfOp (st : EnfSt) (ts : List String) : Option (EnfSt × String × String ×
       | "load", [] =>
           let (ep', ok) := ep.loadPolicy
           -- a successful load rebuilds every link from the loaded rules
-          some ({ st with enf := some ep', histOk := if ok then stateOk ep'.base else st.histOk }, (if ok then "ok" else "err"), "-", true)
+          -- (with auto-build off the links are left as they were: out of step until BuildRoleLinks)
+          some ({ st with enf := some ep', histOk := if ok then stateOk ep'.base && ep'.base.autoBuild else st.histOk }, (if ok then "ok" else "err"), "-", true)
       | "save", [] =>
           let (e', ok) := e.savePolicy
           ret e' (if ok then "ok" else "err") "-" true
       | "buildlinks", [] =>
           match ep.applyM .buildLinks with
-          | some (ep', res) => retP ep' (match res with | .ok _ => "ok" | .err _ => "err") "-" true
+          | some (ep', res) =>
+              -- a successful BuildRoleLinks puts every manager in step with the listed rules
+              let ok := match res with | .ok _ => true | .err _ => false
+              some ({ st with enf := some ep', histOk := if ok then stateOk ep'.base else st.histOk }, (if ok then "ok" else "err"), "-", true)
           | none => none
       | "addmf", [gt, f] =>
           let (ep', ok) := ep.addMatchingFunc gt f
